@@ -258,6 +258,16 @@ fn family_c02(ctx: &mut Ctx) {
         let orig = originals(ctx.seed, ctx.counter, k, sb);
         enc_event(ctx, e, kd, k, r, &orig, None, false);
     }
+    // (2b) multi-block shards (structured payloads: zero blocks inside non-zero shards) on every engine
+    for (ei, e) in engines.iter().enumerate() {
+        for (rate, k, r, sb) in [("high", 6usize, 2usize, 128usize), ("low", 3, 5, 192), ("high", 9, 4, 256), ("low", 4, 9, 130)] {
+            let dr = ops::default_rate_of(k, r).unwrap_or("none");
+            let kinds = ops::kinds_for(rate, dr, e);
+            let kd = kinds[ei % kinds.len()];
+            let orig = originals(ctx.seed, 0x5B00 + ctx.counter, k, sb);
+            enc_event(ctx, e, kd, k, r, &orig, None, true);
+        }
+    }
     // (3) boundary configurations: random data (sampled recovery indexes) and unit vectors (all of them)
     for (bi, (rate, k, r)) in boundary_configs(ctx.thorough).into_iter().enumerate() {
         let dr = ops::default_rate_of(k, r).unwrap_or("none");
